@@ -59,6 +59,9 @@ func (c *converters) Sync() {
 	ingressConverter := ingress.NewIngressConverter(c.options, c.haproxy, changed)
 	gatewayConverter := gateway.NewGatewayConverter(c.options, c.haproxy, changed, ingressConverter)
 
+	// added and updated ingress resources are linked to what they declare before
+	// the gateway converter asks the tracker if the changes reach its resources
+	ingressConverter.TrackChanges()
 	needFullSync := changed.NeedFullSync ||
 		gatewayConverter.NeedFullSync() ||
 		ingressConverter.NeedFullSync()
